@@ -42,8 +42,8 @@ Section Defs.
     match p_geo_ratio_tolerance par with
     | None => true
     | Some tol =>
-        let hi := vadd O (vlit O 1%float) tol in
-        let lo := vdiv O (vlit O 1%float) hi in
+        let hi := vadd O (vlit O 1 0) tol in
+        let lo := vdiv O (vlit O 1 0) hi in
         let q := vdiv O (vofZ O nc) (vofZ O nt) in
         vleb O lo q && vleb O q hi
     end.
